@@ -8,6 +8,7 @@ import Dashu.Proofs.Text.FmtLow
 import Dashu.Proofs.Text.Pieces
 import Dashu.Proofs.Text.ChunksInv
 import Dashu.Gen.TextDigit
+import Dashu.Proofs.Text.BytesBE
 /-
   C07 — Integer text and byte encodings round-trip and match the reference digits.
 
@@ -424,6 +425,27 @@ theorem ibig_bytes_model (W : Nat) (h8 : 8 ∣ W) (hW : 8 ≤ W) (z : Int) (byte
   ⟨ibigToLeBytes_eq W h8 hW z, fromSignedLeBytes_eq W h8 hW bytes hb,
    (fromSigned_toSigned W h8 hW z).1, (fromSigned_toSigned W h8 hW z).2⟩
 
+/-- **the big-endian byte functions as the separate code they are** (`words_to_be_bytes`: top word's bytes after
+    the skipped leading zero bytes, then the lower words in reverse order; `to_signed_be_bytes`: `insert(0, 0xff)`
+    for `-(2^(8k))`, sign byte inserted at the front; `from_be_bytes_large`: `rchunks_exact(WORD_BYTES)` +
+    `remainder`, `word_from_be_bytes_partial` padding the missing HIGH bytes; sign read from the first byte),
+    mirrored in Model/Text/BytesBE.lean and executed by the driver, equal the mirror-image model — hence the
+    positional / two's complement specification read most-significant-first, and they are mutually inverse -/
+theorem be_bytes_mirrored (W : Nat) (h8 : 8 ∣ W) (hW : 8 ≤ W) (n : Nat) (z : Int) (bytes : List Nat)
+    (hb : ∀ b ∈ bytes, b < 256) :
+    toBeBytesM W n = (leBytesSpec n).reverse ∧ fromBeBytesM W bytes = ofLeBytesSpec bytes.reverse ∧
+    ibigToBeBytesM W z = (signedLeBytesSpec z).reverse ∧
+    fromSignedBeBytesM W bytes = ofSignedLeBytesSpec bytes.reverse ∧
+    fromBeBytesM W (toBeBytesM W n) = n ∧ fromSignedBeBytesM W (ibigToBeBytesM W z) = z := by
+  refine ⟨?_, ?_, ?_, ?_, ?_, ?_⟩
+  · rw [toBeBytesM_eq, toBeBytes_eq W n h8 hW]
+  · rw [fromBeBytesM_eq]; unfold fromBeBytes; exact fromLeBytes_eq W h8 hW _
+  · rw [ibigToBeBytesM_eq W h8 hW, ibigToBeBytes_eq W h8 hW]
+  · rw [fromSignedBeBytesM_eq]; unfold fromSignedBeBytes
+    exact fromSignedLeBytes_eq W h8 hW _ (by intro b hb'; exact hb b (List.mem_reverse.mp hb'))
+  · rw [fromBeBytesM_eq, toBeBytesM_eq]; exact fromBeBytes_toBeBytes W n h8 hW
+  · rw [fromSignedBeBytesM_eq, ibigToBeBytesM_eq W h8 hW]; exact (fromSigned_toSigned W h8 hW z).2
+
 /-- chunks: `from_chunks(to_chunks(n, k), k) = n` for every chunk size `k ≥ 1` (the documented
     precondition is `k ≠ 0`); chunks are `< 2^k` and the top chunk is non-zero -/
 theorem chunks_round_trip (n k : Nat) (hk : 1 ≤ k) :
@@ -563,5 +585,7 @@ example := (chunks_inverse 64 127 (by decide) (by decide)).2 [0, 2 ^ 127 - 1, 0,
 example := chunk_spec_guards (2 ^ 128) (2 ^ 64 - 1) (by decide) [5, 0, 0]
 
 example := ubig_bytes_inverse_canonical 64 (by decide) (by decide) [0, 255, 0, 0, 0, 0, 0, 0, 0, 0, 0, 0, 0, 0, 0, 0, 0, 7] (by decide) (by decide)
+
+example := be_bytes_mirrored 64 (by decide) (by decide) (2 ^ 130 + 7) (-(2 ^ 128)) [255, 0, 0, 0, 0, 0, 0, 0, 0, 0, 0, 0, 0, 0, 0, 0, 0] (by decide)
 
 end Dashu.Props.C07
